@@ -33,6 +33,7 @@ def stepOp (w : World) (op : String) : World × String :=
   | ["ad", us] => opAdvance w (nat! us)
   | ["rs"] => opReset w
   | ["sn"] => opSnap w
+  | ["no"] => (w, "ok")
   | _ => (w, "bad-op")
 
 def handle (args : List String) : String :=
